@@ -493,6 +493,62 @@ class TransportV(Model):
         return self
 
 
+def apply_serde_skips(ex, v, depth=0):
+    """What serialisation followed by deserialisation does to a value beyond the identity: a field with
+    #[serde(skip_serializing_if = "pred")] is left out when the real predicate (run from MIR) holds and comes back as the field
+    type's Default.  Only predicates that are functions of the crate on crate structs are run (Vec::is_empty, Option::is_none
+    and the zero tests skip exactly the default value, so they change nothing)."""
+    if depth > 6:
+        return
+    v = deref(v)
+    if isinstance(v, M.VecV):
+        for x in v.items:
+            apply_serde_skips(ex, x, depth + 1)
+        return
+    if not isinstance(v, Agg) or v.ty is None:
+        return
+    name = P.strip_generics(v.ty).split('::')[-1]
+    skips = ex.prog.src.serde_skip.get(name) or {}
+    names = ex.prog.src.struct_fields(v.ty) or []
+    for i, fv in enumerate(list(v.fields)):
+        fname = names[i] if i < len(names) else None
+        if fname in skips:
+            pred, fty = skips[fname]
+            segs = pred.split('::')
+            if segs[0] in ('Vec', 'Option') or 'zero_' in segs[-1]:
+                continue
+            cands = ex.prog.fn_index.get((segs[-2] if len(segs) > 1 else None, None, segs[-1])) or []
+            dname = '<%s as Default>::default' % P.strip_generics(fty).split('::')[-1]
+            if len(cands) != 1:
+                raise Unsupported('serde skip predicate %s not found in MIR' % pred)
+            r = ex.call_fn(cands[0][0], [Ref([fv], 0)])
+            if is_sym(r):
+                r = ex.branch(r, 'serde skip predicate')
+            if r:
+                dc = [n for n in ex.prog.module.fns if n.endswith('::default') and ('<' + P.strip_generics(fty).split('::')[-1].lower()) in n.lower()]
+                fld_ty = deref(fv).ty if isinstance(deref(fv), Agg) else None
+                sub = ex.prog.src.struct_fields(fld_ty) if fld_ty else None
+                if sub is None:
+                    raise Unsupported('default of %s for a skipped field' % fty)
+                # derive(Default) on a struct of Options / Vecs / integers
+                dv = []
+                for x in deref(fv).fields:
+                    x = deref(x)
+                    if isinstance(x, Agg) and last_seg(x.ty or '') == 'Option' or (isinstance(x, Agg) and x.vname in ('Some', 'None')):
+                        dv.append(M.none())
+                    elif isinstance(x, M.VecV):
+                        dv.append(M.VecV([], 'Vec'))
+                    elif isinstance(x, int) and not isinstance(x, bool):
+                        dv.append(0)
+                    elif isinstance(x, bool):
+                        dv.append(False)
+                    else:
+                        raise Unsupported('default of field value %r' % (x,))
+                v.fields[i] = Agg(fld_ty, None, dv)
+                continue
+        apply_serde_skips(ex, fv, depth + 1)
+
+
 def as_payload(ex, v):
     v = deref(v)
     if isinstance(v, Payload):
@@ -628,6 +684,7 @@ def install(ex, store):
         m = re.search(r'to_(?:vec|string)::<(.*)>$', c)
         ty = m.group(1) if m else '?'
         v = clone_value(ex, deref(a[0]))
+        apply_serde_skips(ex, v)
         doc = JsonDoc(v, P.strip_generics(ty) if not ty.startswith('Vec') else ty, ex.fresh_int('jsonlen', 2, 1 << 40))
         return ok(doc)
     add(r'(?:serde_json::)?to_vec::<.*>|(?:serde_json::)?to_string::<.*>', to_json)
